@@ -256,7 +256,11 @@ def step (s : St) (toks : List String) : Option (St × String × String) :=
       let v ← s.view
       let m ← query v q
       let sp ← query s.st q
-      some (s, m, sp)
+      -- diagnosis (for the known-finding signature F18): a stored manifest the live graph
+      -- knows but no index.json entry reaches
+      let orphans := s.st.blobs.filter fun n => c.isMan n && s.st.graph.nodes n && !v.graph.nodes n
+      let why := if m != sp && !orphans.isEmpty then "orphan-manifest-not-in-index" else ""
+      some ({ s with why := why }, m, sp)
   | "foreign" :: rest => do
       let keep ← parseNats (← kv rest "keep")
       let es ← ((← kv rest "entries").splitOn ",").mapM fun e =>
